@@ -373,12 +373,19 @@ class FixedPointUnit(Unit):
         return None
 
     def replay(self, model, label):
+        if label.startswith('frame.'):
+            rp = replay_fixed_instances(self.carrier, self.bits)
+            if rp['confirmed']:
+                return rp
         v = model.get('v', '0')
         v = float(Fraction(v)) if isinstance(v, str) else float(v)
         return replay_fixed(self.carrier, self.bits, v)
 
     def bounded(self, rng, tier):
-        fails, cnt = [], 0
+        fails, cnt = [], 1
+        rp = replay_fixed_instances(self.carrier, self.bits)
+        if rp['confirmed']:
+            fails.append(dict(call=rp['call'], observed=rp['observed'], witness='FixedPoint-instances'))
         lo, hi = dom(self.carrier.__name__)
         den = 1 << self.bits
         vals = [0.0, 1.0, -1.0, 0.5, -0.5, 1 / den, -1 / den, hi / den, lo / den, (hi - 0.5) / den, 3.14159] + \
@@ -391,6 +398,34 @@ class FixedPointUnit(Unit):
                                   witness='FixedPoint(%s,%d)' % (self.carrier.__name__, self.bits)))
                 break
         return dict(name=self.name + '.ieee', evaluations=cnt, failures=fails, bound='boundaries + 200 seeded random doubles')
+
+
+def replay_fixed_instances(carrier, bits):
+    """History over SEVERAL instances of the parametrised type: an instance keeps its own parameters whatever other
+    instances are created afterwards, with positional or keyword arguments (seeded change C02-r10: instances interned by a
+    key that leaves the keyword out, __init__ re-run on the shared object)."""
+    den = 1 << bits
+    v = 1.5 if den > 2 else 1.0
+    n, signed = SCALARS[carrier.__name__]
+    want = wire.be(int(Fraction(v) * den), n, signed)
+    for first_kw in (True, False):
+        a = FixedPoint(carrier, fractional_bits=bits) if first_kw else FixedPoint(carrier, bits)
+        others = []
+        for mk in (lambda: FixedPoint(carrier), lambda: FixedPoint(carrier, fractional_bits=(bits % 7) + 1),
+                   lambda: FixedPoint(carrier, (bits % 5) + 2), lambda: FixedPoint(Integer if carrier is not Integer else Short, bits)):
+            try:
+                others.append(mk())
+            except Exception:      # noqa
+                pass
+            s = Sink()
+            k, val = native_call(a.send, v, s)
+            k2, r = native_call(a.read, io.BytesIO(want))
+            if k != 'ok' or s.data != want or k2 != 'ok' or abs(Fraction(r) - Fraction(v)) >= Fraction(1, den):
+                return dict(confirmed=True, call='FixedPoint(%s, %s%d) used after %d other FixedPoint instances were created'
+                            % (carrier.__name__, 'fractional_bits=' if first_kw else '', bits, len(others)),
+                            observed='send(%r): %s %s (2^-%d fixed point is %s); read(%s): %s %r'
+                                     % (v, k, s.data.hex(), bits, want.hex(), want.hex(), k2, r))
+    return dict(confirmed=False, call='FixedPoint instances', observed='independent')
 
 
 def replay_fixed(carrier, bits, v):
